@@ -407,7 +407,7 @@ func drawC11(t *rapid.T) C11Case {
 	c.Entry = rapid.SampledFrom([]string{"world", "world", "newverifier", "authorizer", "authorizerfor"}).Draw(t, "entry")
 	c.Place = rapid.SampledFrom([]string{"authority", "authorizer", "block"}).Draw(t, "place")
 	x, y, z := m.Var("x"), m.Var("y"), m.Var("z")
-	switch cls := rapid.IntRange(0, 39).Draw(t, "class") / 2; {
+	switch cls := spreadInt(t, "class", 20); {
 	case rapid.IntRange(0, 19).Draw(t, "heavy") == 13:
 		n := calibrateHeavy()
 		c2 := heavyCase(n)
